@@ -178,9 +178,19 @@ def run(tier):
         p = os.path.join(gdir, 'mut%d.c' % i)
         common.write(p, mutate.mutate(rng.choice(seeds), rng, rng.choice(seeds)))
         files.append(('mut:%d' % i, p))
+    # byte-level variants for which reading by path and reading from stdin could take different code paths
+    basef = open(os.path.join(common.VERIF, 'corpus', 'run', 'control.c'), 'rb').read()
+    variants = {'bom': b'\xef\xbb\xbf' + basef, 'bom-only': b'\xef\xbb\xbf', 'crlf': basef.replace(b'\n', b'\r\n'), 'no-final-newline': basef.rstrip(b'\n'), 'nul-inside': basef[:200] + b'\0' + basef[200:],
+                'empty': b'', 'only-newlines': b'\n\n\n', 'ff-prefix': b'\x0c' + basef, 'utf16-bom': b'\xff\xfe' + basef, 'splice-at-eof': basef + b'\\', 'ctrl-z': basef + b'\x1a', 'cr-only': basef.replace(b'\n', b'\r')}
+    vfiles = []
+    for k, v in variants.items():
+        p = os.path.join(gdir, 'variant-%s.c' % k)
+        common.write(p, v)
+        vfiles.append(('variant:' + k, p))
     if tier == 'quick':
         rng.shuffle(files)
         files = files[:900]
+    files += vfiles
     items = []
     for k, (name, path) in enumerate(files):
         mm = re.search(r'\+([a-z0-9_-]+)\.c$', path)
